@@ -3,7 +3,7 @@
 # of colliding target pairs, and the configurable part of the repository's test corpus are configured with the
 # real `meson setup`; build.ninja is read by the independent reference reader (refninja) and the invariants of
 # the property are evaluated on the parsed graph and on meson-info/intro-*.json.
-import glob, itertools, json, os, shutil, sys
+import glob, itertools, json, os, re, shutil, sys
 from verif.core import Check, pmap, run_main, scratch_root, REPO
 from verif import projgen as pg, refninja as rn
 
@@ -371,6 +371,40 @@ def run_genshare(job):
     return ('genshare', ' -> '.join(seq), outcome, v, st, {'files': files, 'args': []})
 
 
+# ---- statements above and below the response-file threshold on the same rules --------------------------------------------
+def run_rspmix(job):
+    """One long and one short statement for each of the compile, link and static-link rules: both rule variants (NAME and
+    NAME_RSP) must be defined."""
+    from verif import mesonproc as mp
+    idx, = job
+    root = os.path.join(scratch_root(), 'c04r.%d' % os.getpid())
+    shutil.rmtree(root, ignore_errors=True)
+    files = {'main.c': 'int main(void) { return 0; }\n', 'small.c': 'int small(void) { return 1; }\n'}
+    nsrc = 700
+    for i in range(nsrc):
+        files['big/s%d.c' % i] = 'int big_%d(void) { return %d; }\n' % (i, i)
+    big = ', '.join("'-DBIG%d=%s'" % (i, 'x' * 60) for i in range(400))
+    bigl = ', '.join("'-Wl,--defsym=big%d=%d'" % (i, i) for i in range(1500))
+    L = ["project('rm', 'c')",
+         "biglib = static_library('biglib', %s)" % ', '.join("'big/s%d.c'" % i for i in range(nsrc)),
+         "smalllib = static_library('smalllib', 'small.c')",
+         "executable('bigargs', 'main.c', c_args: [%s], link_args: [%s])" % (big, bigl),
+         "executable('smallexe', 'main.c', link_with: smalllib)",
+         "shared_library('bigshared', 'small.c', link_whole: biglib)"]
+    files['meson.build'] = '\n'.join(L) + '\n'
+    mp.write_tree(root, files)
+    res = mp.run_meson(['setup', 'b'], root, timeout=600)
+    outcome, v, st = judge_setup(res, os.path.join(root, 'b'))
+    if outcome == 'configured':
+        txt = open(os.path.join(root, 'b', 'build.ninja')).read()
+        st['rsp_rules'] = len(re.findall(r'^rule \w+_RSP$', txt, re.M))
+        if st['rsp_rules'] < 3:
+            v.append(('C04:INTERNAL', 'rspmix project did not reach the response-file threshold for 3 rules (%d)' % st['rsp_rules']))
+    shutil.rmtree(root, ignore_errors=True)
+    files = {k: v_ for k, v_ in files.items() if not k.startswith('big/')}
+    return ('rspmix', 'rspmix', outcome, v, st, {'files': files, 'args': []})
+
+
 def dispatch(job):
     kind = job[0]
     if kind == 'unity':
@@ -383,6 +417,8 @@ def dispatch(job):
         return run_tests_family(job[1:])
     if kind == 'genshare':
         return run_genshare(job[1:])
+    if kind == 'rspmix':
+        return run_rspmix(job[1:])
     return run_corpus(job[1:])
 
 
@@ -440,6 +476,9 @@ def main():
         for kind in ('test', 'benchmark'):
             jobs.append(('tests', idx, kind))
             idx += 1
+    if ck.want('rspmix'):
+        jobs.append(('rspmix', idx))
+        idx += 1
     if ck.want('genshare'):
         for seq in genshare_cases():
             jobs.append(('genshare', idx, seq))
